@@ -23,7 +23,7 @@ def _extra(ctx):
                live_values_sharing_a_backing_array_with_spare_capacity=dict(share),
                exhaustive_histories=exh)
     if exh:
-        cov["exhaustive"] = ("all %d histories of length 1..4 over {with at end, without at end, with at front} x {string, bytes, array}, "
+        cov["exhaustive_part"] = ("all %d histories of length 1..4 over {with at end, without at end, with at front} x {string, bytes, array}, "
                              "every choice of operand among the values so far" % exh)
     return dict(coverage=cov)
 
